@@ -433,12 +433,15 @@ class Lexer:
                 return
 
             if not c:
+                # `self.start` is one past the end of input if the opening quote
+                # is the last character. Point at the last character instead.
+                index = min(self.start, len(self.source) - 1)
                 raise LiquidSyntaxError(
                     "unclosed string literal",
                     token=ErrorToken(
                         type_=TokenType.ERROR,
-                        index=self.start,
-                        value=self.source[self.start],
+                        index=index,
+                        value=self.source[index],
                         markup_start=self.markup_start,
                         markup_stop=self.pos,
                         source=self.source,
@@ -571,12 +574,15 @@ class Lexer:
                 return
 
             if not c:
+                # `self.start` is one past the end of input if the opening quote
+                # is the last character. Point at the last character instead.
+                index = min(self.start, len(self.source) - 1)
                 raise LiquidSyntaxError(
                     "unclosed string or template string expression",
                     token=ErrorToken(
                         type_=TokenType.ERROR,
-                        index=self.start,
-                        value=self.source[self.start],
+                        index=index,
+                        value=self.source[index],
                         markup_start=self.markup_start,
                         markup_stop=self.pos,
                         source=self.source,
